@@ -18,9 +18,10 @@
    candidate of rank (r + k) mod N, the global rank tells all candidates apart, and the
    first step of a fresh engine shows rank 0 - so N steps show every candidate exactly
    once and step N + 1 is the first again.
-   NOT proved (DESIGN.md C15): the backward composition over several groups
-   (cyclePreviousGroup + lastCell; the per-group backward steps are proved) and grid
-   construction - compared with the implementation on every run. *)
+   The same backward (cyclePreviousGroup + lastCell): k menu-complete-backward steps end on
+   rank (r - k) mod N, and the first backward step of a fresh engine shows the last candidate.
+   NOT modelled (DESIGN.md C15): grid construction - the shapes it produces are checked
+   against the hypotheses of these theorems on every run. *)
 From Model Require Import Base Grid.
 From Proofs Require Import GridP EngineP.
 Open Scope Z_scope.
@@ -127,3 +128,13 @@ Proof. exact global_rank_inj. Qed.
 Theorem C15_first_step : forall e g0 rest, all_wf e -> e_cur e = -1 -> e_groups e = g0 :: rest -> g_px g0 = -1 -> g_py g0 = -1 ->
   exists e', select e 1 = Ok e' /\ all_wf e' /\ gtotals e' = gtotals e /\ estate e' 0.
 Proof. exact first_select. Qed.
+
+(* k menu-complete-backward steps move the global rank by -k modulo the number of candidates *)
+Theorem C15_backward_cycle : forall k e r, all_wf e -> estate e r ->
+  exists e', selects_back k e = Ok e' /\ all_wf e' /\ gtotals e' = gtotals e /\ estate e' ((r - Z.of_nat k) mod Gtotal e).
+Proof. exact backward_steps. Qed.
+
+(* the first menu-complete-backward of a fresh engine shows the last candidate (rank N - 1) *)
+Theorem C15_first_step_backward : forall e g0 rest, all_wf e -> e_cur e = -1 -> e_groups e = g0 :: rest -> g_px g0 = -1 -> g_py g0 = -1 ->
+  exists e', select e (-1) = Ok e' /\ all_wf e' /\ gtotals e' = gtotals e /\ estate e' (Gtotal e - 1).
+Proof. exact first_select_back. Qed.
